@@ -478,6 +478,32 @@ func avcCheck(c *vf.Ctx, devs []dev) {
 				return
 			}
 		}
+		// the serialised record: Size() bytes, and the record read back from them carries the same values
+		var rb bytes.Buffer
+		if err := cr.Encode(&rb); err != nil {
+			fail("DecConfRec", "encode error", err.Error())
+			return
+		}
+		if uint64(rb.Len()) != cr.Size() {
+			fail("DecConfRec", "encoded length equals Size()", fmt.Sprintf("wrote %d, Size() %d", rb.Len(), cr.Size()))
+			return
+		}
+		dr, err := avc.DecodeAVCDecConfRec(rb.Bytes())
+		if err != nil {
+			fail("DecConfRec", "decode error", err.Error())
+			return
+		}
+		if dr.AVCProfileIndication != cr.AVCProfileIndication || dr.ProfileCompatibility != cr.ProfileCompatibility || dr.AVCLevelIndication != cr.AVCLevelIndication ||
+			len(dr.SPSnalus) != 1 || !bytes.Equal(dr.SPSnalus[0], spsNAL) || len(dr.PPSnalus) != 1 || !bytes.Equal(dr.PPSnalus[0], ppsNAL) {
+			fail("DecConfRec", "serialised record: profile/level and parameter sets verbatim", fmt.Sprintf("%x", rb.Bytes()))
+			return
+		}
+		if h264syn.HighProfile(s.Profile) && s.Profile != 138 {
+			if uint(dr.ChromaFormat) != s.ChromaIDC() || uint(dr.BitDepthLumaMinus1) != s.BitDepthLumaM8 || uint(dr.BitDepthChromaMinus1) != s.BitDepthChromaM8 {
+				fail("DecConfRec", "serialised record: chroma format / bit depths", fmt.Sprintf("read back chroma %d luma %d chroma-depth %d, SPS has %d %d %d", dr.ChromaFormat, dr.BitDepthLumaMinus1, dr.BitDepthChromaMinus1, s.ChromaIDC(), s.BitDepthLumaM8, s.BitDepthChromaM8))
+				return
+			}
+		}
 		if cs := avc.CodecString("avc1", ps); cs != fmt.Sprintf("avc1.%02X%02X%02X", s.Profile, s.Compat, s.Level) {
 			fail("CodecString", "value", cs)
 			return
